@@ -505,7 +505,8 @@ def run(ctx):
         'compile_time_rejections_justified': justified, 'compile_time_rejections_unjustified': unjustified,
         'crashes_not_reproduced_on_replay': cc.unreproduced,
         'reach': st.get('reach'), 'reach_gaps': st.get('reach_gaps'),
-        'samples': [{'tag': t, 'function': s} for t, s in (srcs[3], srcs[len(EXPR) * 5 + 7], srcs[-100])],
+        'samples': [{'tag': t, 'function': s} for t, s in (srcs[min(3, len(srcs) - 1)], srcs[min(len(EXPR) * 5 + 7, len(srcs) - 1)],
+                                                            srcs[-min(100, len(srcs))])],
         'exhaustive': True,
     }
     return cov, ['expression nesting deeper than 2, arity > 2, values outside the 9-value set are not covered',
